@@ -59,6 +59,12 @@ def corpus(tier, seed):
     rnd.shuffle(repo)
     skip = ("echo", "loop", "looping", "random", "interpreter")      # read stdin / run forever / random_int by construction
     repo = [f for f in repo if not any(s in os.path.basename(f) for s in skip)]
+
+    def impure(f):
+        # programs whose OUTPUT is not a function of the sources by construction: random numbers, standard input, time
+        text = open(f, errors="replace").read()
+        return any(w in text for w in ("/random", "random_int", "random/", "stdin", "read_line", "read_int", "read_all", "/time", "clock"))
+    repo = [f for f in repo if not impure(f)]
     files += repo[: (14 if tier == "quick" else 120)]
     # a rejected program with several independent type errors
     p = os.path.join(d, "rejected_multi.zy")
